@@ -24,8 +24,12 @@ R1.6 exit protocol: ``__exit__`` closes on every path, ``rectify_metadata``
      feature dataset (never of the trace *group*).
 R1.7 ragged counter: contour datasets are named curid+ii, the cached group
      size advances once per dataset and starts from len(group).
-R1.8 writer modes: reset truncates, replace deletes exactly the addressed
-     dataset before anything is written, append keeps it.
+R1.8 writer modes: reset truncates, replace deletes exactly the datasets
+     that are rewritten (member by member for sub-group features such as
+     trace) before anything is written, append keeps them.
+R1.9 reader memo independent of the request: a value a lazy reader caches
+     on `self` never depends on named per-call arguments (dtype, copy,
+     index) unless the argument is the key of a mapping memo.
 """
 from __future__ import annotations
 
@@ -48,6 +52,10 @@ ASSUMPTIONS = [
     "datasets are the ones the property is about).",
     "R1.5 compares literals that name HDF5 groups / members; it does not "
     "follow names that are computed at run time.",
+    "R1.9 does not track the catch-alls *args / **kwargs (never filled by "
+    "the numpy array protocol) nor mutation of a memo through method calls "
+    "(append, setdefault); private helpers and constructors are out of "
+    "scope.",
 ]
 
 WR = "dclab/rtdc_dataset/writer.py"
@@ -2096,6 +2104,134 @@ def _mode_guard_ok(test, want):
     return bad
 
 
+def _tests_name(test, fname):
+    """the test is about the value of `fname` itself (operand of a
+    comparison or argument of a predicate), not about an object it
+    indexes"""
+    def is_f(e):
+        return isinstance(e, ast.Name) and e.id == fname
+    for n in ast.walk(test):
+        if isinstance(n, ast.Compare) and (is_f(n.left) or any(
+                is_f(c) for c in n.comparators)):
+            # `feat in events` is a presence test, not a value test
+            if len(n.ops) == 1 and isinstance(n.ops[0], (ast.In, ast.NotIn)) \
+                    and not isinstance(n.comparators[0],
+                                       (ast.List, ast.Tuple, ast.Set)) \
+                    and is_f(n.left):
+                continue
+            return True
+        if isinstance(n, ast.Call) and any(is_f(a) for a in n.args):
+            return True
+    return False
+
+
+def _feat_conditions(node, stop, fname):
+    """[(test, branch)] of the enclosing if/elif tests on the feature name
+    between `node` and `stop`"""
+    out = []
+    child = node
+    for a in ancestors(node):
+        if a is stop:
+            break
+        if isinstance(a, ast.If) and _tests_name(a.test, fname):
+            in_body = any(child is x or any(child is y for y in walk(x))
+                          for x in a.body)
+            out.append((a.test, in_body))
+        child = a
+    return out
+
+
+def _holds_for(conds, fname, value):
+    """all conditions hold when the feature name equals `value`; None when a
+    test cannot be evaluated"""
+    def res(n):
+        if isinstance(n, ast.Name) and n.id == fname:
+            return "f"
+        if isinstance(n, ast.Compare) and len(n.ops) == 1 and isinstance(
+                n.ops[0], (ast.In, ast.NotIn)) and isinstance(
+                n.comparators[0], (ast.List, ast.Tuple, ast.Set)) \
+                and isinstance(n.left, ast.Name) and n.left.id == fname:
+            vals = [const_str(e) for e in n.comparators[0].elts]
+            hit = value in vals
+            return "T" if hit == isinstance(n.ops[0], ast.In) else "F"
+        return None
+    for test, branch in conds:
+        try:
+            v = bool(eval_pred(test, {"f": value, "T": True, "F": False},
+                               res))
+        except AnalysisError:
+            if not branch:
+                # else-part of a test that does not compare the name with
+                # literals (e.g. a registry lookup): no constraint derived
+                continue
+            return None
+        if v != branch:
+            return False
+    return True
+
+
+def _replace_units(ctx, f, guard, dels):
+    """Replace mode removes exactly the datasets that are rewritten.  A
+    feature whose data are written as *members* of a sub-group (one
+    write_ndarray per key of `data` into events.require_group(<feat>)) is
+    replaced member by member: a deletion of the whole sub-group also
+    removes the members that are not rewritten."""
+    fname = f.args.args[1].arg if len(f.args.args) > 1 else None
+    if fname is None:
+        raise AnalysisError("store_feature: signature changed")
+    # member-level write units
+    units = {}
+    for c in [n for n in walk(f) if isinstance(n, ast.Call)
+              and (last_attr(n) or "").startswith("write_")]:
+        g = kwarg(c, "group", 0)
+        if isinstance(g, ast.Call) and last_attr(g) == "require_group" \
+                and g.args and const_str(g.args[0]):
+            sub = const_str(g.args[0])
+            loops = [a for a in ancestors(c) if isinstance(a, ast.For)]
+            key = kwarg(c, "name", 1)
+            if not loops or not isinstance(key, ast.Name) \
+                    or key.id not in names_in(loops[0].target):
+                raise AnalysisError(f"store_feature: member-wise write into "
+                                    f"'{sub}' not recognised")
+            conds = _feat_conditions(c, f, fname)
+            if _holds_for(conds, fname, sub) is not True:
+                raise AnalysisError(f"store_feature: sub-group '{sub}' is "
+                                    f"not written under {fname} == '{sub}'")
+            units[sub] = (c, loops[0])
+    for sub, (wcall, wloop) in sorted(units.items()):
+        applicable = []
+        for d in dels:
+            h = _holds_for(_feat_conditions(d, guard, fname), fname, sub)
+            if h is None:
+                raise AnalysisError(f"store_feature: condition of "
+                                    f"`{short(d, 30)}` not recognised")
+            if h:
+                applicable.append(d)
+        bad = None
+        for d in applicable:
+            t = d.targets[0]
+            memberwise = isinstance(t, ast.Subscript) and isinstance(
+                t.value, ast.Subscript) and (
+                txt(t.value.slice) == fname
+                or const_str(t.value.slice) == sub)
+            loops = [a for a in ancestors(d) if isinstance(a, ast.For)]
+            same_dom = bool(loops) and names_in(loops[0].iter) == names_in(
+                wloop.iter) and isinstance(t.slice, ast.Name) \
+                and t.slice.id in names_in(loops[0].target)
+            if not (memberwise and same_dom):
+                bad = d
+        ok = bool(applicable) and bad is None
+        ctx.ob("R1.8", ok,
+               f"'{sub}' is replaced member by member: exactly the members "
+               f"that are rewritten are deleted" if ok else
+               f"'{sub}' data are rewritten member by member (one dataset "
+               f"per key of `data`) but replace mode runs "
+               f"`{short(bad, 30) if bad is not None else 'no deletion'}`: "
+               f"members that are not rewritten are removed / kept stale",
+               node=bad if bad is not None else guard,
+               label=f"replace unit of '{sub}'")
+
+
 def r18(ctx, repo):
     init = repo.func(WR, "RTDCWriter.__init__")
     files = [c for c in find_calls(init, name="h5py.File")]
@@ -2183,6 +2319,8 @@ def r18(ctx, repo):
                 ctx.ob("R1.8", ok, "only the members that are rewritten are "
                        "deleted" if ok else f"`{short(d, 40)}` deletes "
                        f"members that are not rewritten", node=d, label=lab)
+        if q.endswith("store_feature"):
+            _replace_units(ctx, f, guard, [d for d, _ in mode_dels])
         # nothing is written before the deletion
         d_ids = set()
         for d, _ in mode_dels:
@@ -2197,6 +2335,116 @@ def r18(ctx, repo):
                if not early else f"`{short(early[0], 40)}` can run before "
                f"the old data are deleted", node=guard,
                label="delete precedes writes")
+
+
+# ----------------------------------------------------------------------
+# R1.9 reader memo independent of the request
+
+HE = "dclab/rtdc_dataset/fmt_hierarchy/events.py"
+
+
+def _param_deps(func):
+    """{local name: set of named parameters it depends on} – flow-insensitive
+    closure over assignments, loop targets and with-items.  `self` and the
+    catch-alls *args / **kwargs are not tracked (the array protocol never
+    fills them)."""
+    a = func.args
+    named = [x.arg for x in a.posonlyargs + a.args + a.kwonlyargs]
+    named = [x for x in named if x not in ("self", "cls")]
+    deps = {p_: {p_} for p_ in named}
+
+    def of(expr):
+        out = set()
+        for n in ast.walk(expr):
+            if isinstance(n, ast.Name) and n.id in deps:
+                out |= deps[n.id]
+        return out
+    changed = True
+    rounds = 0
+    while changed and rounds < 20:
+        changed = False
+        rounds += 1
+        for n in walk(func):
+            pairs = []
+            if isinstance(n, ast.Assign):
+                pairs = [(t, n.value) for t in n.targets]
+            elif isinstance(n, (ast.AugAssign, ast.AnnAssign)) \
+                    and n.value is not None:
+                pairs = [(n.target, n.value)]
+            elif isinstance(n, (ast.For, ast.comprehension)):
+                pairs = [(n.target, n.iter)]
+            elif isinstance(n, ast.NamedExpr):
+                pairs = [(n.target, n.value)]
+            elif isinstance(n, ast.withitem) and n.optional_vars is not None:
+                pairs = [(n.optional_vars, n.context_expr)]
+            for tgt, val in pairs:
+                d = of(val)
+                if not d:
+                    continue
+                for x in ast.walk(tgt):
+                    if isinstance(x, ast.Name) and isinstance(
+                            x.ctx, ast.Store):
+                        if not d <= deps.get(x.id, set()):
+                            deps[x.id] = deps.get(x.id, set()) | d
+                            changed = True
+    return deps, of
+
+
+def r19(ctx, repo):
+    """A value memoised on `self` by a lazy reader is computed from the
+    stored data only: named per-call arguments (dtype, copy, index, …) must
+    not flow into an assignment of a `self.<attr>` memo, unless the memo is
+    a mapping and the argument is (part of) the key."""
+    for rel in (EV, LG, TB, HE):
+        tree = repo.tree(rel)
+        for cls in tree.body:
+            if not isinstance(cls, ast.ClassDef):
+                continue
+            for fn in cls.body:
+                if not isinstance(fn, ast.FunctionDef):
+                    continue
+                # accessors: public and protocol methods; the constructor
+                # defines the object, private helpers have fixed callers
+                if fn.name == "__init__" or (
+                        fn.name.startswith("_")
+                        and not fn.name.startswith("__")
+                        and not any(txt(d) == "property"
+                                    for d in fn.decorator_list)):
+                    continue
+                f = expand_private_calls(repo, rel, fn)
+                deps, of = _param_deps(f)
+                for n in walk(f):
+                    if isinstance(n, ast.Assign):
+                        tv = [(t, n.value) for t in n.targets]
+                    elif isinstance(n, ast.AugAssign):
+                        tv = [(n.target, n.value)]
+                    else:
+                        continue
+                    for t, val in tv:
+                        keyed = set()
+                        attr = None
+                        if is_self_attr(t):
+                            attr = t.attr
+                        elif isinstance(t, ast.Subscript) \
+                                and is_self_attr(t.value):
+                            attr = t.value.attr
+                            keyed = of(t.slice)
+                        if attr is None:
+                            continue
+                        leak = sorted(of(val) - keyed)
+                        ctx.ob("R1.9", not leak,
+                               f"self.{attr} is computed from the stored "
+                               f"data only" + (f" (keyed by "
+                                               f"{sorted(keyed)})"
+                                               if keyed else "")
+                               if not leak else
+                               f"the memo self.{attr} is filled with a value "
+                               f"that depends on the per-call argument(s) "
+                               f"{leak}: the first caller's request is "
+                               f"served to every later caller",
+                               node=n,
+                               key=f"{rel}::{cls.name}.{fn.name}::memo "
+                                   f"self.{attr} independent of the request")
 
 
 # ----------------------------------------------------------------------
@@ -2223,7 +2471,12 @@ def run(ctx):
              "per entry, starts at len(group) and cannot outlive a deleted "
              "group", minimum=5)
     ctx.rule("R1.8", "reset truncates; replace deletes exactly the "
-             "addressed data before writing", minimum=9)
+             "data that are rewritten (member-wise for sub-groups) before "
+             "writing", minimum=10)
+
+    ctx.rule("R1.9", "lazy readers memoise values computed from the stored "
+             "data only – named per-call arguments never flow into a "
+             "self.<attr> memo (except as its key)", minimum=8)
 
     wn = wfunc(repo, WR, "RTDCWriter.write_ndarray")
     fr = find_frame(wn)
@@ -2269,6 +2522,7 @@ def run(ctx):
     r16(ctx, repo)
     r17(ctx, repo)
     r18(ctx, repo)
+    r19(ctx, repo)
 
 
 
@@ -2525,6 +2779,27 @@ MUTANTS = [
      _width_before_encoding, "R1.3"),
     ("comprehension form measures the unencoded lines", WR,
      _width_over_raw_lines, "R1.3"),
+    # round 2
+    ("H5ScalarEvent memo loaded with the caller's dtype", EV,
+     ("self._array = np.asarray(self.h5ds, *args, **kwargs)",
+      "self._array = np.asarray(self.h5ds, dtype=dtype, *args, **kwargs)"),
+     "R1.9"),
+    ("ChildScalar memo converted to the caller's dtype", HE,
+     ("self._array = hparent[self.feat][filt_arr]",
+      "self._array = np.asarray(hparent[self.feat][filt_arr], dtype=dtype)"),
+     "R1.9"),
+    ("contour length memo taken from the requested slice", EV,
+     ("            indices = np.arange(len(self))[key]\n",
+      "            indices = np.arange(len(self))[key]\n"
+      "            self._length = len(indices)\n"), "R1.9"),
+    ("replace mode deletes the whole trace group", WR,
+     ('            if feat == "trace":\n'
+      "                for tr_name in data.keys():\n"
+      "                    if tr_name in events[feat]:\n"
+      "                        del events[feat][tr_name]\n"
+      "            else:\n"
+      "                del events[feat]\n",
+      "            del events[feat]\n"), "R1.8"),
 ]
 
 #: apply only to the tree with the repairs of F01 in place (the guarded
@@ -2592,6 +2867,18 @@ TWINS = [
      _dispatch_with_constants),
     ("encoded lines and width by comprehension", WR,
      _lines_by_comprehension),
+    # round 2
+    ("H5ScalarEvent memo assigned through a local", EV,
+     ("            self._array = np.asarray(self.h5ds, *args, **kwargs)\n",
+      "            arr = np.asarray(self.h5ds, *args, **kwargs)\n"
+      "            self._array = arr\n")),
+    ("trace members deleted under the literal group name", WR,
+     ("del events[feat][tr_name]", 'del events["trace"][tr_name]')),
+    ("trace members deleted in a loop over data", WR,
+     ("                for tr_name in data.keys():\n"
+      "                    if tr_name in events[feat]:",
+      "                for tr_name in data:\n"
+      "                    if tr_name in events[feat]:")),
 ]
 
 # mutants that re-introduce the repaired defects (apply to the fixed tree)
